@@ -127,6 +127,14 @@ Dudect(fault, at) ==
   /\ out' = [op |-> "Dudect", ok |-> (fault = "none"), rnglog |-> IF fault # "none" /\ at = 0 THEN OneDraw ELSE TwoDraws]
   /\ UNCHANGED << keys, issued, sigof, ser, fmt >>
 
+\* The OS-RNG convenience entry points are KeyGenRng / Sign with the operating system as the generator.  `healthy` is
+\* the state of that generator (environment): when it fails the call reports an error and, as for any RNG fault, nothing
+\* is created or issued; the objects made by a successful call are not tracked (their randomness is not observable).
+OsRng(entry, healthy) ==
+  /\ entry \in {"try_keygen", "try_sign", "try_hash_sign"}
+  /\ out' = [op |-> "OsRng", ok |-> healthy]
+  /\ UNCHANGED << keys, issued, sigof, ser, fmt >>
+
 \* ------------------------------------------------------------------ serialisation
 SerKey(h) == << keys[h].kind, keys[h].set, keys[h].lin >>
 Serialise(h, bytes) ==
